@@ -126,7 +126,7 @@ def attr_design(a, name, tprefix, types):
         ref = {"kind": "user", "ref": tn}
         att["type"] = {"kind": "array", "elem": ref} if nest == "elem_nested" else {"kind": "map", "key": {"kind": "string"}, "elem": ref}
     if a["mode"] == "default":
-        att["default"] = concrete_leaf(a, default_of(a))
+        att["default"] = design_default(a)
     return att
 
 
@@ -153,12 +153,23 @@ def whole_tref(a):
 
 
 def default_of(a):
+    """DefaultOf of lib/Values.tla: the kind's default leaf; for a list / map of values two entries, the last one that leaf"""
     k = a["kind"]
     if k in INTS or k in UINTS:
-        return V(k, 3)
-    if k in FLOATS:
-        return V(k, 3, "half")
-    return {"bool": V("bool", 1), "string": V("string", 3)}.get(k)
+        d = V(k, 3)
+    elif k in FLOATS:
+        d = V(k, 3, "half")
+    else:
+        d = {"bool": V("bool", 1), "string": V("string", 3)}.get(k)
+    if d is not None and a["nest"] in ("elem", "mapval"):
+        d = dict(d, cn=2)
+    return d
+
+
+def design_default(a):
+    """the Default(...) of the design as plain JSON (a map is a JSON object here, not rt.Fill's {"$map": ..})"""
+    c = concrete(a, default_of(a))
+    return c["$map"] if isinstance(c, dict) and "$map" in c else c
 
 
 def V(cls, n, s="plain", cn=1):
